@@ -71,6 +71,12 @@ class Cycles(srv.SrvHarness):
             dict(topo='single', capacity=2, rounds=2, calls=[[[10, BIG, False]]], stream=dict(xs=[0, 1, 2, 3], stop_after=1),
                  oracles=O, bound=d, cap=cap),
             dict(topo='seq', capacity=3, rounds=2, calls=[], stream=dict(xs=[0, 1, 2, 3, 4], stop_after=2), oracles=O, bound=d, cap=cap),
+            # the consumer breaks out of the stream and leaves the server with requests in flight; the suspended generator
+            # is closed only afterwards (what `for ... in server.stream(...): break` inside `with server:` does)
+            dict(topo='single', capacity=1, rounds=2, gated=['A'], calls=[], drain_before_exit=False,
+                 stream=dict(xs=[0, 1, 2, 3, 4], stop_after=1, close='after_exit'), oracles=['shutdown'], bound=d, cap=cap),
+            dict(topo='single', capacity=2, rounds=1, gated=['A'], calls=[], drain_before_exit=False,
+                 stream=dict(xs=[0, 1, 2, 3, 4, 5, 6], stop_after=2, close='after_exit'), oracles=['shutdown'], bound=d, cap=cap),
         ]
         return out
 
@@ -215,6 +221,9 @@ class PCycles(PHarness):
                  oracles=O, bound=d, cap=cap, drain_before_exit=False),
             dict(ptopo='PT', topo='seq', capacity=8, rounds=2, pipe=40, calls=[], stream=dict(xs=list(range(6)), stop_after=1),
                  oracles=O, bound=d, cap=cap, drain_before_exit=False),
+            # the abandoned stream is still open when the server is left, and closed afterwards
+            dict(ptopo='P', topo='single', capacity=2, rounds=2, calls=[], drain_before_exit=False,
+                 stream=dict(xs=list(range(6)), stop_after=1, close='after_exit'), oracles=['shutdown'], bound=d, cap=cap),
         ]
 
 
